@@ -1,14 +1,17 @@
 """C12, from the wire to the cache (component `wi`): merged into lib/props_C12.py."""
 
 WIRE_PROP = {
-    "modules": ["Gnmi.Props.C12Wire"],
+    "modules": ["Gnmi.Props.C12Wire", "Gnmi.Props.C12Opt"],
     "theorems": ["Gnmi.C12W." + t for t in [
         "toNoti_joinKey", "toNoti_updKey", "toNoti_delKey", "toNoti_key_order", "toNoti_stamp", "toNoti_stamp_praw_nil",
         "wireGnmiUpdate_wireValid", "wire_ingest_sinv", "wire_ingest_total",
         "mgr_recv_total", "mgr_session_total", "wire_session_total", "mgrRecv_is_step", "mgrSession_reachable",
         "wire_rejected_preserves",
         "subscribe_all_requests_total", "later_requests_unread", "later_content_ignored", "pollRounds_reads",
-        "later_nonpoll_rejected_false"]],
+        "later_nonpoll_rejected_false"]] + ["Gnmi.C12Opt." + t for t in [
+        # the receive loop with any subset of its optional callbacks configured (Model/ManagerOpt.lean; `wi opt`)
+        "opt_session_total", "opt_session_total_wire", "opt_session_filter", "full_session_shape", "optLoop_guarded",
+        "unguarded_sync_panics", "unguarded_update_panics", "unguarded_connect_panics", "unguarded_reset_panics"]],
     "components": [
         {"c": "wi", "quick": {"n": 1500, "exhaustive": True}, "thorough": {"n": 20000, "exhaustive": True, "seeds": 4}},
     ],
@@ -31,6 +34,11 @@ WIRE_PROP = {
         "sync response of the running walk went out; cache unchanged during the RPC); interleavings are C04-C08",
     ],
     "level_text_part":
+        " Optional callbacks (Props/C12Opt.lean over Model/ManagerOpt.lean): for every subset of Config.Connect / Sync / Update / "
+        "Reset left nil and every response stream gRPC can deliver, handleUpdates runs to the end of the stream without a panic "
+        "(opt_session_total) and invokes exactly the configured callbacks of the fully configured session, in its order "
+        "(opt_session_filter, full_session_shape); each of the four nil checks is shown necessary by a decided witness; tied to the "
+        "code by `wi opt` (a Manager built by NewManager from a Config holding exactly the callbacks of the mask, all 16 masks)."
         " Wire to cache (Props/C12Wire.lean over Model/WireIngest.lean): Wire.toNoti states the reduction the Go code performs "
         "implicitly between a decoded gnmi.Notification and what the cache reads (path.ToStrings on prefix and paths incl. "
         "deprecated elements and keys, origin, nil prefix / path / value, atomic, timestamp, canonical renderings standing "
